@@ -9,6 +9,10 @@ META = {"level": "model_checking", "assumptions": ["decode candidates come from 
 
 
 def replay(w: dict) -> dict:
+    if w.get("spec"):
+        from ..e1 import replay_spec
+
+        return replay_spec("vlib.props.C14", w)
     if w.get("skeleton"):
         from ..e3 import replay as r3
 
@@ -16,6 +20,132 @@ def replay(w: dict) -> dict:
     from ..e2 import replay as r2
 
     return r2(w)
+
+
+def _vfl_common():
+    import z3
+
+    from openapi_python_client.parser.properties.enum_property import EnumProperty
+    from openapi_python_client.parser.properties.schemas import Class
+
+    from ..bstr import core
+
+    CI = Class(name="C", module_name="c")
+
+    def run_real(a, b):
+        try:
+            return EnumProperty.values_from_list([a, b], CI)
+        except ValueError:
+            return None
+
+    def raised(enc):
+        return z3.Or([core.FALSE] + [z3.BoolVal(c) if isinstance(c, bool) else c for c, _ in enc.raises])
+
+    def real(a, b):
+        r = run_real(a, b)
+        return [r is None, None if r is None else len(r)]
+
+    def terms(enc):
+        return [raised(enc), enc.result.size()]
+
+    base = {
+        "fn": EnumProperty.values_from_list,
+        "make_args": lambda i: ([[i[0], i[1]], CI], {}),
+        "n_inputs": 2,
+        "names": ["v0", "v1"],
+        "real": real,
+        "terms": terms,
+        "pair_tests": [("a b", "a-b"), ("a", "A"), ("ab", "AB"), ("a", "b"), ("1a", "2b"), ("", "a"), ("a.", "a-"), ('a"', "b"), ("²a", "a²")],
+    }
+    return base, raised, run_real, core, z3
+
+
+def _validate_patch(sp):
+    # the driver compares `terms` with `real`; the size is only meaningful when nothing was raised
+    real0, terms0 = sp["real"], sp["terms"]
+
+    def real(a, b):
+        r = real0(a, b)
+        return [r[0], 0 if r[0] else r[1]]
+
+    def terms(enc):
+        import z3
+
+        t = terms0(enc)
+        from ..bstr import core
+
+        return [t[0], z3.If(t[0], core.lv(0), t[1])]
+
+    sp["real"], sp["terms"] = real, terms
+    return sp
+
+
+def spec_enum_member_names() -> dict:
+    import keyword
+
+    base, raised, run_real, core, z3 = _vfl_common()
+
+    def violation(enc):
+        bad = []
+        for k, _, live in enc.result.entries:
+            k = core.as_bstr(k)
+            bad.append(z3.And(live, z3.Or(z3.Not(core.isidentifier(k)), core.iskeyword(k))))
+        return z3.And(z3.Not(raised(enc)), z3.Or(bad))
+
+    def cv(a, b):
+        r = run_real(a, b)
+        if r is None:
+            return False, "raises ValueError"
+        badk = [k for k in r if not (k.isidentifier() and not keyword.iskeyword(k))]
+        return bool(badk), f"member names {list(r)}"
+
+    from ..findings import CLASSES
+
+    return _validate_patch({**base, "violation": violation, "concrete_violation": cv, "classes": CLASSES, "what": "every member name values_from_list derives from two string enum values is a non-keyword identifier"})
+
+
+def spec_enum_values_verbatim() -> dict:
+    base, raised, run_real, core, z3 = _vfl_common()
+    BS = chr(92)
+
+    def violation(enc):
+        # when nothing is raised and nothing merged, the stored values are exactly the escaped listed values, in order
+        ents = enc.result.entries
+        ok = []
+        for (k, v, live), inp in zip(ents, enc.inputs):
+            ok.append(core.eq(core.as_bstr(v), core.replace_char(inp, '"', BS + '"')))
+        return z3.And(z3.Not(raised(enc)), enc.result.size() == core.lv(2), z3.Not(z3.And(ok)))
+
+    def cv(a, b):
+        r = run_real(a, b)
+        if r is None or len(r) != 2:
+            return False, "raised / merged"
+        want = [a.replace('"', BS + '"'), b.replace('"', BS + '"')]
+        return list(r.values()) != want, f"stored {list(r.values())} for {[a, b]}"
+
+    return _validate_patch({**base, "violation": violation, "concrete_violation": cv, "classes": {}, "what": "the wire value stored for each member is the listed value (escaped for the double-quoted literal of str_enum.py.jinja), in order"})
+
+
+def spec_enum_raise_probe() -> dict:
+    base, raised, run_real, core, z3 = _vfl_common()
+
+    def cv(a, b):
+        return (a != b and run_real(a, b) is None), "raises ValueError('Duplicate key ...')"
+
+    return _validate_patch({**base, "probe": True, "violation": lambda enc: z3.And(z3.Not(core.eq(enc.inputs[0], enc.inputs[1])), raised(enc)), "concrete_violation": cv, "classes": {}, "what": "values_from_list never raises for two *different* values"})
+
+
+def spec_enum_merge_probe() -> dict:
+    base, raised, run_real, core, z3 = _vfl_common()
+
+    def cv(a, b):
+        r = run_real(a, b)
+        return (a != b and r is not None and len(r) != 2), f"members {None if r is None else dict(r)}"
+
+    return _validate_patch({**base, "probe": True, "violation": lambda enc: z3.And(z3.Not(core.eq(enc.inputs[0], enc.inputs[1])), z3.Not(raised(enc)), enc.result.size() != core.lv(2)), "concrete_violation": cv, "classes": {}, "what": "two different listed values never end up as one member"})
+
+
+SPECS = {"enum_member_names": spec_enum_member_names, "enum_values_verbatim": spec_enum_values_verbatim, "enum_raise_probe": spec_enum_raise_probe, "enum_merge_probe": spec_enum_merge_probe}
 
 
 def obligations(tier: str) -> list[Ob]:
@@ -36,6 +166,15 @@ def obligations(tier: str) -> list[Ob]:
             bounds={"values per enum": "<= 2 (quick)", "value pool": 10},
         )
     )
+    from ..e1 import spec_obs
+
+    M = "vlib.props.C14"
+    ns = [1, 2] if q else [1, 2, 3]
+    to = 400 if q else 3000
+    obs += spec_obs(M, "enum_member_names", "member_names", {}, "member_names", ns, 99, to)
+    obs += spec_obs(M, "enum_values_verbatim", "values_verbatim", {}, "values_verbatim", ns, 99, to)
+    obs += spec_obs(M, "enum_raise_probe", "raise_probe", {}, "raise_probe", [2], 99, to)
+    obs += spec_obs(M, "enum_merge_probe", "merge_probe", {}, "merge_probe", [2], 99, to)
     obs.append(
         harness_ob(
             "null_member_becomes_nullable", "C17_equiv.py", tier, funcs=["enum_with_null_equals_union"], timeout=200 if q else 600, cpus=1, replay_func="vlib.props.C14:replay",
